@@ -53,6 +53,7 @@ BOUNDS = {
     "shift": (-200, 1500, 0, 0),
     "excl": (-1000, 1000, -100, 100),
     "none": None,
+    "shift-low": (-1900, 100, 0, 0),  # same width as b1000, moved down
 }
 
 EVENTS = (
@@ -69,6 +70,12 @@ EVENTS_T = EVENTS + [("bounds", "excl"), ("reg", "r1", 1, 50, None), ("op", "o2"
 
 
 OLD_STAMPED = {"shrink", "shift"}  # delivered with a timestamp older than the previous message's
+
+
+# a deeper pass over a reduced alphabet (bounds of equal width moved against each other, a regular preference that is
+# clamped by them, an operating-point preference, a repeated bounds message)
+DEEP_EVENTS = [("reg", "r1", 1, 2000, None), ("reg", "r1", 1, 300, None), ("op", "o1", 2, 500, None), ("op", "o1", 2, None, None),
+               ("bounds", "b1000"), ("bounds", "shift-low"), ("bounds", "shrink")]
 
 
 def sb(spec, loop, old=False):
@@ -196,6 +203,8 @@ def shard(args) -> Acc:
     tier, prefix, depth, start = args
     acc = Acc()
     ev = EVENTS if tier == "quick" else EVENTS_T
+    if start == "deep":
+        ev, start = DEEP_EVENTS, "warm"
     for tail in itertools.product(ev, repeat=depth):
         hist = list(prefix) + list(tail)
         obs, unhandled = run_history(hist, start)
@@ -235,6 +244,8 @@ def run(tier: str, seed: int, workers: int):
             shards.append((tier, [e1, e2], 3, "warm"))  # depth 5
         for e1, e2 in itertools.product(ev, ev):
             shards.append((tier, [e1, e2], 2, "cold"))
+    for e1, e2 in itertools.product(DEEP_EVENTS, DEEP_EVENTS):
+        shards.append((tier, [e1, e2], 3 if tier == "quick" else 5, "deep"))  # depth 5 / 7 over the reduced alphabet
     if seed:
         import random
 
@@ -244,7 +255,8 @@ def run(tier: str, seed: int, workers: int):
         "rule": "every history to depth 4 (quick) / 5 (thorough) over the event menu {regular proposal (2 actors: preferred -300/300/2000, "
         "bounds-only, 50), operating-point proposal (-300/0/500, withdrawal; thorough also 200 and a regular withdrawal), system bounds widen / shrink / shift / back / unavailable, "
         "distribution result Success / PartialFailure / Error for the latest request and a late PartialFailure for the previous one, expiry (+61 s)} from a warm start (bounds +-1000 delivered, one regular "
-        "and one operating-point report subscription) and to depth 3-4 from a cold start (no bounds yet); non-trivial = history with a "
+        "and one operating-point report subscription) and to depth 3-4 from a cold start (no bounds yet); plus every history to depth 5 (quick) / 7 over a reduced alphabet of 7 events "
+        "(regular preference 2000 / 300, operating-point preference 500 / withdrawal, bounds +-1000 / -1900..100 / +-500) from the warm start; non-trivial = history with a "
         "regular and an operating-point proposal and at least one bounds/result/expiry event",
         "assumptions": [
             "system inclusion bounds contain 0 W (lower <= 0 <= upper), as C03 states the domain of system bounds and as every pool produces them",
